@@ -93,6 +93,8 @@ KindsLateQ == {[MK(FALSE, n, FALSE) EXCEPT !.qlate = TRUE, !.na = a] : n \in BOO
 KindsNA == {[MK(FALSE, n, FALSE) EXCEPT !.na = TRUE] : n \in BOOLEAN}
 KindsX == Kinds4 \cup KindsMail \cup KindsLateQ \cup KindsNA
 KindsFocus == Kinds3 \cup KindsMail
+KindsQ == Kinds1 \cup KindsLateQ \cup KindsNA
+KindsAll == KindsX \cup Kinds5
 
 VARIABLES cfg, k, cur, pc, mxi, att, lvl, conn, pool, lastErr,
           pend,   \* TLSA outcome of an earlier MX whose lookup is still unanswered ("no" = none)
